@@ -24,7 +24,7 @@ ASSUMPTIONS = [
 ]
 MONITORS = ("status answers vs os.walk listing; FaultyFS counters prove both lookup strategies ran; wrappers on ObjectDBIndex.update/clear "
             "log what was indexed; index content vs upload log + present directory objects after every step")
-REQUIRED_COUNTERS = ["stores_opened_through_non_canonical_path", "stores_of_another_algorithm", "many_indexed_directories_cases", "histories_with_second_store_index", "second_store_queries", "expanded_transfer_steps", "dir_vanished_mid_transfer_steps", "expanded_status_queries_with_index", "handle_wrote_before_foreign_writes", "source_lost_files", "unprotected_valid_objects", "two_handle_histories", "status_queries", "strategy/per-object-exists", "strategy/traverse", "compare_status_calls", "expanded_queries",
+REQUIRED_COUNTERS = ["index_handles_closed_and_reused", "histories_with_an_empty_directory", "stores_opened_through_non_canonical_path", "stores_of_another_algorithm", "many_indexed_directories_cases", "histories_with_second_store_index", "second_store_queries", "expanded_transfer_steps", "dir_vanished_mid_transfer_steps", "expanded_status_queries_with_index", "handle_wrote_before_foreign_writes", "source_lost_files", "unprotected_valid_objects", "two_handle_histories", "status_queries", "strategy/per-object-exists", "strategy/traverse", "compare_status_calls", "expanded_queries",
                      "histories", "history_steps", "index_checks", "index_updates_seen", "index_clears_seen", "external_deletions",
                      "failed_transfer_steps", "indexed_dir_exists_checked", "store/local", "store/remote", "store/base"]
 
@@ -202,6 +202,8 @@ def run_shard(ctx):
             res.count("two_handle_histories")
         index = handles[0]
         ids, shallow, denoted = sc.closed_request(expanded=False)
+        if sc.has_empty_tree:
+            res.count("histories_with_an_empty_directory")
         # a second, unrelated store with its own index, alive in the same process (primary + backup remote): nothing is ever sent to it
         other_idx = other_odb = None
         if rng.random() < 0.5:
@@ -284,7 +286,13 @@ def run_shard(ctx):
                 res.count("history_steps")
                 index = rng.choice(handles)
                 op = rng.choice(["transfer", "transfer", "failing-transfer", "delete-file", "delete-dir", "status", "status", "compare", "source-loses-file",
-                                 "expanded-transfer", "dir-vanishes-mid-transfer"])
+                                 "expanded-transfer", "dir-vanishes-mid-transfer", "close-handle"])
+                if op == "close-handle":
+                    # a handle is closed and then simply used again (it reconnects on demand)
+                    rng.choice(handles).close()
+                    res.count("index_handles_closed_and_reused")
+                    log.append((op,))
+                    continue
                 if op == "source-loses-file":
                     objs_d, _t, _s = list_store(sc.dest_root)
                     cands = sorted(o for o in sc.file_oids() if o not in objs_d and os.path.exists(sc.src_path(o)))
